@@ -2,46 +2,53 @@
 import os, json
 from engines.common import Run, ch_obligations, VERIF
 
-T = '''
-def tm_shape{sh}(a: int, b: int, c: int, on_clause: bool, using: bool, model_first: bool) -> int:
-    """
-    pre: 0 <= a < {na} and 0 <= b < {na} and 0 <= c < {na}
-    pre: a != b and b != c and a != c
-    post: _ == 0
-    """
-    return step({sh}, a, b, c, on_clause, using, model_first)
-
-
-def tm_shape{sh}_reach(a: int, b: int, c: int, on_clause: bool, using: bool, model_first: bool) -> int:
-    """
-    pre: 0 <= a < {na} and 0 <= b < {na} and 0 <= c < {na}
-    pre: a != b and b != c and a != c
-    post: False
-    """
-    return step({sh}, a, b, c, on_clause, using, model_first)
-'''
-
-
 def gen():
+    """one contract per (shape, value of the first atom for 3-slot shapes): unused atom slots are not parameters, so that the
+    solver does not split on values that cannot matter"""
     from harness import c14lib
     d = os.path.join(VERIF, '.scratch')
     os.makedirs(d, exist_ok=True)
     path = os.path.join(d, 'gen_ch_C14.py')
+    specs = []
+    na = c14lib.NA
     with open(path, 'w') as f:
         f.write('from harness.c14lib import step\n')
-        for sh in range(c14lib.NS):
-            f.write(T.format(sh=sh, na=c14lib.NA))
-    return path, list(range(c14lib.NS))
+        for sh, (tmpl, _top) in enumerate(c14lib.SHAPES):
+            used = [k for k in 'ABC' if '{%s}' % k in tmpl]
+            fixed_a = list(range(na)) if len(used) == 3 else [None]
+            for fa in fixed_a:
+                params = [k.lower() for k in used if not (k == 'A' and fa is not None)]
+                name = 'tm_shape%d' % sh + ('' if fa is None else '_a%d' % fa)
+                sig = ', '.join(['%s: int' % q for q in params] + ['on_clause: bool', 'using: bool', 'model_first: bool'])
+                vals = {'a': 'a' if fa is None else str(fa), 'b': 'b' if 'B' in used else '-1', 'c': 'c' if 'C' in used else '-2'}
+                pre = ' and '.join('0 <= %s < %d' % (q, na) for q in params)
+                names = [vals[k.lower()] for k in used]
+                distinct = ' and '.join('%s != %s' % (x, y) for i_, x in enumerate(names) for y in names[i_ + 1:]) or 'True'
+                for suffix, post in (('', '_ == 0'), ('_reach', 'False')):
+                    f.write('\n\ndef %s%s(%s) -> int:\n    """\n    pre: %s\n    pre: %s\n    post: %s\n    """\n'
+                            '    return step(%d, %s, %s, %s, on_clause, using, model_first)\n'
+                            % (name, suffix, sig, pre or 'True', distinct, post, sh, vals['a'], vals['b'], vals['c']))
+                specs.append((name, sh, fa))
+    return path, specs
 
 
-def mk_replay(sh):
+def mk_replay(sh, fa=None):
     def replay(args):
         from harness import c14lib
         import re
+        a = fa if fa is not None else args.get('a', 0)
+        b, c = args.get('b', -1), args.get('c', -2)
+        # unused slots: any distinct atoms
+        free = [x for x in range(c14lib.NA) if x not in (a, b, c)]
+        if b < 0:
+            b = free.pop(0)
+        if c < 0:
+            c = free.pop(0)
         try:
-            pr, info = c14lib.leaf(sh, args['a'], args['b'], args['c'], bool(args['on_clause']), bool(args['using']), bool(args['model_first']))
+            pr, info = c14lib.leaf(sh, a, b, c, bool(args['on_clause']), bool(args['using']), bool(args['model_first']))
         except Exception as e:  # noqa
             pr, info = ['check crashed %r' % e], {}
+        pr = pr + ['undecided: ' + x for x in info.get('undecided', ())]
         cls = re.sub(r"'[^']*'|\d+|\{.*?\}|\[.*?\]", '#', pr[0])[:60] if pr else ''
         return bool(pr), dict(info, problems=pr[:4]), 'table-model-join:%s:%s' % (c14lib.SHAPES[sh][0], cls), '%s: %s' % (info.get('sql'), pr[0] if pr else '')
     return replay
@@ -50,14 +57,14 @@ def mk_replay(sh):
 def run(tier):
     run = Run('C14', tier)
     from harness import c14lib
-    path, shapes = gen()
+    path, gspecs = gen()
     run.bounds = {'where_shapes': [s[0] for s in c14lib.SHAPES], 'atoms': [a[0] for a in c14lib.ATOMS],
                   'options': 'ON clause present/absent, USING present/absent, model written first/second'}
     run.functions = ['plan_query', 'PlanJoinTablesQuery.plan_join_tables/check_query_conditions/check_node_condition/process_table/process_predictor/join_condition_to_columns_map']
     run.assumptions = ['one table joined with one non-timeseries model; WHERE = formula of depth <= 2 over 8 atom kinds (table comparison, table BETWEEN, model = const, model > const, column = column, function(column) = const); more tables/models are covered structurally by C09/C10',
                        'oracle: independent syntactic spec from the property text (top-level conjuncts of the written WHERE)',
                        'structure variables are finite-domain; CrossHair/z3 split the space, leaves run the real parser and planner']
-    specs = [dict(fn='tm_shape%d' % sh, twin='tm_shape%d_reach' % sh, replay=mk_replay(sh)) for sh in shapes]
+    specs = [dict(fn=name, twin=name + '_reach', replay=mk_replay(sh, fa)) for name, sh, fa in gspecs]
     ch_obligations(run, path, specs, cond_to=300 if tier == 'quick' else 900, path_to=60)
     run.sample({'example': c14lib.build(6, 0, 1, 2, True, True, False)[0]})
     run.finish()
@@ -66,7 +73,8 @@ def run(tier):
 def replay(path):
     r = json.load(open(path))
     print(json.dumps(r, indent=1))
-    sh = int(r['replay']['harness'].replace('tm_shape', ''))
-    rep, info, key, what = mk_replay(sh)(r['replay']['args'])
+    import re
+    m = re.match(r'tm_shape(\d+)(?:_a(\d+))?', r['replay']['harness'])
+    rep, info, key, what = mk_replay(int(m.group(1)), int(m.group(2)) if m.group(2) else None)(r['replay']['args'])
     print('native replay now: reproduced=%s %s' % (rep, json.dumps(info, default=repr)))
     return 1 if rep else 0
